@@ -14,9 +14,14 @@
 // shorter all ones, alternating 2w+1) - "no result depends on earlier contents".
 // Oracle: std::vector<bool> built from the same list; size, empty, count, any, all, none, block_count, every bit through
 // operator[] and iteration, bits beyond size() zero, == against a bitset built by push_back and one built by set(i).
+// ALLOCATOR DIMENSION: all nine routes run over std::allocator AND over c03::DirtyAlloc (construct(p) without arguments
+// default-initialises; allocate() hands out memory filled with 0xFF, then with 0xA5): the list constructor creates its storage
+// first and writes only the list's elements into it, so whatever the storage-creating site leaves in the rest of the last
+// block (and, for a too large storage, in further blocks) shows as count / all / == / unused-bit failures.
 #include <xtl/xdynamic_bitset.hpp>
 
 #include "report.hpp"
+#include "dirty_alloc.hpp"
 
 #include <cstdint>
 #include <functional>
@@ -66,7 +71,8 @@ template <> struct bname<std::uint16_t> { static const char* s() { return "u16";
 template <> struct bname<std::uint32_t> { static const char* s() { return "u32"; } };
 template <> struct bname<std::uint64_t> { static const char* s() { return "u64"; } };
 
-static long long g_cases = 0, g_evals = 0, g_exhaustive_cases = 0;
+static long long g_cases = 0, g_evals = 0, g_exhaustive_cases = 0, g_dirty_evals = 0;
+static const char* g_alloc = "";   // "" (std::allocator), "dirtyFF", "dirtyA5": the allocator of the routes being judged
 static std::size_t g_max_len = 0;
 
 // ---- patterns: "x<value>" (bit i of value), or a structured family member, or w1:<i>, w0:<i>, pair:<i>:<j> ----
@@ -125,8 +131,8 @@ static void fail(const char* op, const char* q, const std::string& pat, std::siz
 {
     // signature: route class (ctor / assign) x failing query x length class; the exact route, length and content are in the message
     const std::string cls = std::string(op).compare(0, 6, "assign") == 0 ? "assign-list" : std::string(op) == "harness" ? "harness" : "ctor-list";
-    vf::violation(std::string("C03/lists-") + bname<B>::s() + "/" + cls + "/" + q + "/" + band<B>(n),
-                  std::string("block ") + bname<B>::s() + ", initializer list of " + str(n) + " elements, content " + pat + ": " + op + ": " + msg,
+    vf::violation(std::string("C03/lists-") + bname<B>::s() + "/" + cls + (*g_alloc ? std::string("-") + g_alloc : std::string()) + "/" + q + "/" + band<B>(n),
+                  std::string("block ") + bname<B>::s() + (*g_alloc ? std::string(", allocator ") + g_alloc + " (default-initialising construct(p), memory pre-filled)" : std::string()) + ", initializer list of " + str(n) + " elements, content " + pat + ": " + op + ": " + msg,
                   {"--only", bname<B>::s(), str(n), pat});
 }
 
@@ -162,26 +168,42 @@ static void judge(const char* op, const BS& b, const std::vector<bool>& ref, con
     if (!(b == st) || (b != st)) fail<B>(op, "equality", pat, n, "!= a bitset holding the same elements built by set(i)");
 }
 
+template <class BS>
+static void routes(std::initializer_list<bool> il, const std::vector<bool>& ref, const std::string& pat)
+{
+    typedef typename BS::block_type B;
+    typedef typename BS::allocator_type A;
+    const std::size_t w = sizeof(B) * 8, n = ref.size();
+    { BS a(il); judge("ctor(list)", a, ref, pat); }
+    { BS a(il, A()); judge("ctor(list,alloc)", a, ref, pat); }
+    { BS a = il; judge("copy-list-init", a, ref, pat); }
+    { BS a; a.assign(il); judge("assign(list) onto empty", a, ref, pat); }
+    { BS a(n, true); a.assign(il); judge("assign(list) onto same-size ones", a, ref, pat); }
+    { BS a(n + w + 3, true); a.assign(il); judge("assign(list) onto longer ones", a, ref, pat); }
+    { BS a(n / 2, true); a.assign(il); judge("assign(list) onto shorter ones", a, ref, pat); }
+    { BS a(2 * w + 1, false); for (std::size_t i = 0; i < a.size(); i += 2) a.set(i); a.assign(il); judge("assign(list) onto alternating 2w+1", a, ref, pat); }
+    { BS a(il); a.assign(il); judge("assign(list) onto itself-valued", a, ref, pat); }
+}
+
 template <class B>
 static void one(const std::vector<bool>& v, const std::string& pat)
 {
-    typedef xtl::xdynamic_bitset<B> BS;
-    const std::size_t w = sizeof(B) * 8, n = v.size();
+    const std::size_t n = v.size();
     ++g_cases;
     if (n > g_max_len) g_max_len = n;
     // the oracle is built from the very same list object the library sees
     with_list(v, [&](std::initializer_list<bool> il) {
         std::vector<bool> ref(il);
         if (ref != v) { fail<B>("harness", "list", pat, n, "the generated list does not hold the requested content"); return; }
-        { BS a(il); judge("ctor(list)", a, ref, pat); }
-        { BS a(il, std::allocator<B>()); judge("ctor(list,alloc)", a, ref, pat); }
-        { BS a = il; judge("copy-list-init", a, ref, pat); }
-        { BS a; a.assign(il); judge("assign(list) onto empty", a, ref, pat); }
-        { BS a(n, true); a.assign(il); judge("assign(list) onto same-size ones", a, ref, pat); }
-        { BS a(n + w + 3, true); a.assign(il); judge("assign(list) onto longer ones", a, ref, pat); }
-        { BS a(n / 2, true); a.assign(il); judge("assign(list) onto shorter ones", a, ref, pat); }
-        { BS a(2 * w + 1, false); for (std::size_t i = 0; i < a.size(); i += 2) a.set(i); a.assign(il); judge("assign(list) onto alternating 2w+1", a, ref, pat); }
-        { BS a(il); a.assign(il); judge("assign(list) onto itself-valued", a, ref, pat); }
+        g_alloc = "";
+        routes<xtl::xdynamic_bitset<B>>(il, ref, pat);
+        const long long before = g_evals;
+        g_alloc = "dirtyFF"; c03::alloc_stats::fill() = 0xFF;
+        routes<xtl::xdynamic_bitset<B, c03::DirtyAlloc<B>>>(il, ref, pat);
+        g_alloc = "dirtyA5"; c03::alloc_stats::fill() = 0xA5;
+        routes<xtl::xdynamic_bitset<B, c03::DirtyAlloc<B>>>(il, ref, pat);
+        g_alloc = "";
+        g_dirty_evals += g_evals - before;
     });
 }
 
@@ -254,10 +276,12 @@ int main(int argc, char** argv)
     vf::stat("list_cases", g_cases);
     vf::stat("list_cases_exhaustive_content", g_exhaustive_cases);
     vf::stat("list_evaluations", g_evals);
+    vf::stat("list_evaluations_dirty_allocator", g_dirty_evals);
+    vf::stat("list_dirty_blocks_default_inserted", c03::alloc_stats::default_inits());
     vf::smax("list_max_length", (long long)g_max_len);
     vf::note("C03/lists " + (block.empty() ? std::string("all blocks") : block) + ": initializer lists of every length 0.." + str(lmax) + " (all 2^L contents for L <= " + str(xmax) +
              ", above that " + str(NFAM) + " structured contents + walking one + walking zero at every position" + (pairs ? ", every pair of set bits at the boundary lengths of every block width" : "") +
-             "): " + str(g_cases) + " lists, " + str(g_evals) + " constructions/assignments judged (9 routes per list)");
+             "): " + str(g_cases) + " lists, " + str(g_evals) + " constructions/assignments judged (9 routes per list x 3 allocators: std::allocator, default-initialising allocator over 0xFF-filled and over 0xA5-filled memory)");
     vf::done();
     return 0;
 }
